@@ -16,7 +16,7 @@ from vlib.runner import hyp_run
 
 PROPERTY = 'C18'
 RULE = ('random walks over the C01 alphabet + raw frames of each type with body length below/at/above the minimum + '
-        'well-formed UPDATEs of every address family / route type incl. families without a decoder + '
+        'well-formed UPDATEs of every address family / route type incl. families without a decoder, arriving in 1, 2, 3, 4, 9 or (grid) 200 TCP segments + '
         'REST sends (update, route-refresh, bin_update); statistic endpoint compared with the simulated transport after '
         'every step. Non-trivial = a step in which a NOTIFICATION is sent or >= 2 message types move; distinct by '
         'sequence.')
@@ -61,6 +61,13 @@ def frame_of(d, ev):
     return encode_event(d.sim, ev, d.nupd + 1)
 
 
+def pieces(data, n):
+    """data cut into n segments of (almost) equal size"""
+    n = max(1, min(n, len(data)))
+    size = -(-len(data) // n)
+    return [data[i:i + size] for i in range(0, len(data), size)]
+
+
 def apply(d, mon, ev):
     sim = d.sim
     nt = False
@@ -68,7 +75,12 @@ def apply(d, mon, ev):
     if k in ('raw', 'updv'):
         c = d.live()[0]
         data = frame_of(d, ev)
-        if sim.reactor.peer_send(c, data):
+        nseg = ev[2] if k == 'updv' and len(ev) > 2 else 1       # ['updv', k, n]: the message arrives in n TCP segments
+        ok = True
+        for piece in pieces(data, nseg):
+            ok = bool(sim.reactor.peer_send(c, piece)) and ok
+            sim.reactor.settle(fire_due=False)
+        if ok:
             mon.rx.setdefault(c.id, []).append((ev[1], ev[2]) if k == 'raw' else (rc.UPDATE, len(data) - 19))
         sim.reactor.settle(fire_due=True)
         d.history.append(ev)
@@ -191,6 +203,9 @@ def pick(en, choice):
     ev = weighted[choice % len(weighted)]
     if ev == ['updv']:
         ev = ['updv', (choice // len(weighted)) % len(BODIES)]
+        nseg = [1, 1, 2, 3, 4, 9][(choice // 11) % 6]
+        if nseg > 1:
+            ev.append(nseg)
     return ev
 
 
@@ -204,7 +219,7 @@ def run(cfg, choices=None, events=None):
     for x in seq:
         en = enabled(d)
         ev = pick(en, x) if choices is not None else list(x)
-        if ev not in en and not (ev[0] == 'updv' and ['updv'] in en):
+        if ev not in en and not (ev[0] == 'updv' and ['updv'] in en and len(ev) in (2, 3)):
             return d, [], False
         r, nt = apply(d, mon, ev)
         nontrivial = nontrivial or nt
@@ -223,8 +238,9 @@ def kinds_case(case):
         r.peer_send(c, ss.marked_update(i + 1)[0])
         r.settle(fire_due=True)
     code0, b0 = sim.rest('GET', '/v1/peer/10.0.0.2/statistic')
-    r.peer_send(c, rc.frame(rc.UPDATE, body))
-    r.settle(fire_due=True)
+    for piece in pieces(rc.frame(rc.UPDATE, body), case.get('seg', 1)):
+        r.peer_send(c, piece)
+        r.settle(fire_due=True)
     code1, b1 = sim.rest('GET', '/v1/peer/10.0.0.2/statistic')
     if code0 != 200 or code1 != 200:
         return [('statistic-endpoint:%s' % code1, 'GET statistic answered %s / %s' % (code0, code1))]
@@ -293,8 +309,8 @@ def run_shard(spec, seed, col, tier):
         return
     if spec['kind'] == 'kinds':
         for k in range(len(BODIES)):
-            for before, rib in ((0, False), (2, False), (0, True), (2, True)):
-                case = {'k': 'kinds', 'body': k, 'before': before, 'rib': rib, 'name': BODIES[k][0]}
+            for before, rib, seg in ((0, False, 1), (2, False, 1), (0, True, 1), (2, True, 1), (0, False, 2), (1, False, 3), (0, True, 4), (0, False, 200)):
+                case = {'k': 'kinds', 'body': k, 'before': before, 'rib': rib, 'seg': seg, 'name': BODIES[k][0]}
                 res = kinds_case(case)
                 col.case(case, True, labels=['update-kinds'])
                 for sig, detail in res:
